@@ -52,6 +52,7 @@ TraceNext ==
             [] e.ev = "mapend" -> StepMapEnd
             [] e.ev = "docend" -> StepDocEnd
             [] e.ev = "streamend" -> StepStreamEnd
+            [] e.ev = "raised:RuntimeError" -> StepAlias
             [] OTHER -> FALSE
        /\ Matches(e)
     /\ l' = l + 1
